@@ -393,6 +393,20 @@ impl C38 {
         }
     }
 
+    fn exec_read_guarded(&mut self, run: &Run, session: Arc<Session>, op: &Op) -> (String, String) {
+        match std::panic::catch_unwind(std::panic::AssertUnwindSafe(|| self.exec_read(run, session, op))) {
+            Ok(x) => x,
+            Err(e) => {
+                let msg = e
+                    .downcast_ref::<String>()
+                    .cloned()
+                    .or_else(|| e.downcast_ref::<&str>().map(|s| s.to_string()))
+                    .unwrap_or_else(|| "panic".into());
+                ("err panic".into(), format!("err panic {msg}"))
+            }
+        }
+    }
+
     /// run every line; returns the canonical lines and, per line, a shared-vs-fresh difference if there is one
     fn run_case(&mut self, ops: &[Option<Op>], cap: usize, double_read: bool) -> (Vec<String>, Vec<Option<String>>) {
         let mut run = self.new_run(cap, double_read);
@@ -405,17 +419,23 @@ impl C38 {
                 Some(Op::Session(_)) => "ok".to_string(),
                 Some(op) if op.is_read() => {
                     let shared = run.session.clone();
-                    let (line, detail) = self.exec_read(&run, shared, op);
+                    let (line, detail) = self.exec_read_guarded(&run, shared, op);
                     if run.double_read {
                         let fresh = Arc::new(Session::new(LARGE, LARGE, run.registry.clone()));
-                        let (fline, fdetail) = self.exec_read(&run, fresh, op);
+                        let (fline, fdetail) = self.exec_read_guarded(&run, fresh, op);
                         if fline != line || (fdetail != detail && !line.starts_with("err")) {
                             diff = Some(format!("shared session: {line} [{detail}]; fresh session: {fline} [{fdetail}]"));
                         }
                     }
                     line
                 }
-                Some(op) => self.exec_write(&mut run, op),
+                Some(op) => {
+                    // a panic inside lance is an answer of this call (`err panic`), not the end of the case
+                    match std::panic::catch_unwind(std::panic::AssertUnwindSafe(|| self.exec_write(&mut run, op))) {
+                        Ok(l) => l,
+                        Err(_) => "err panic".to_string(),
+                    }
+                }
             };
             out.push(line);
             diffs.push(diff);
@@ -440,7 +460,7 @@ impl Prop for C38 {
 
     fn budget(&self, tier: Tier) -> usize {
         match tier {
-            Tier::Quick => 600,
+            Tier::Quick => 450,
             Tier::Thorough => 8000,
             Tier::Search => 2500,
         }
